@@ -46,6 +46,8 @@ pub enum Op {
     SeekP(u64, u64),
     Pol(PolKind),
     Serde(usize),
+    /// RecordSet::shrink_buffer_to_fit on a slot
+    Shrink(usize),
 }
 
 impl Op {
@@ -61,6 +63,7 @@ impl Op {
             "seekp" => Op::SeekP(v["l"].as_u64().unwrap_or(1), v["b"].as_u64().unwrap_or(0)),
             "pol" => Op::Pol(PolKind::parse(&v["p"])),
             "serde" => Op::Serde(s),
+            "shrink" => Op::Shrink(s),
             _ => Op::Next,
         }
     }
@@ -75,6 +78,7 @@ impl Op {
             Op::SeekP(l, b) => format!("{{\"o\":\"seekp\",\"l\":{},\"b\":{}}}", l, b),
             Op::Pol(p) => format!("{{\"o\":\"pol\",\"p\":{}}}", p.json()),
             Op::Serde(s) => format!("{{\"o\":\"serde\",\"s\":{}}}", s),
+            Op::Shrink(s) => format!("{{\"o\":\"shrink\",\"s\":{}}}", s),
         }
     }
 }
@@ -350,6 +354,7 @@ pub fn rand_hist(rng: &mut Rng, p: &Value, slots: usize) -> Hist {
     let pols = p["pols"].as_bool().unwrap_or(false);
     let serde = p["serde"].as_bool().unwrap_or(false);
     let maxn = p["maxn"].as_u64().unwrap_or(3) as usize;
+    let shrink = p["shrink"].as_bool().unwrap_or(false);
     let mut ops = vec![];
     for _ in 0..len {
         let r = rng.below(100);
@@ -374,6 +379,8 @@ pub fn rand_hist(rng: &mut Rng, p: &Value, slots: usize) -> Hist {
                 1 => PolKind::Plus(1 + rng.below(3)),
                 _ => PolKind::DoubleUntil(4 + rng.below(8)),
             })
+        } else if shrink && r >= 97 {
+            Op::Shrink(s)
         } else if serde {
             Op::Serde(s)
         } else {
